@@ -185,7 +185,7 @@ class World:
         os.remove(self.modpath)
         return {"ev": "delmod"}
 
-    def oldgen(self):
+    def oldgen(self, newer=False):
         if not os.path.exists(self.modpath):
             return None
         st = os.stat(self.modpath)
@@ -197,11 +197,11 @@ class World:
         import mako.codegen as cg
         if int(m.group(1)) != cg.MAGIC_NUMBER:
             return None
-        txt = txt[:m.start(1)] + str(int(m.group(1)) - 1) + txt[m.end(1):]
+        txt = txt[:m.start(1)] + str(int(m.group(1)) + (1 if newer else -1)) + txt[m.end(1):]
         with open(self.modpath, "w") as f:
             f.write(txt)
         os.utime(self.modpath, (OLD, st.st_mtime))
-        return {"ev": "oldgen"}
+        return {"ev": "oldgen", "newer": bool(newer)}
 
     # ---- constructions
     def begin(self, p):
@@ -296,7 +296,7 @@ def run_history(args):
                 elif op == "delmod":
                     add(w.delmod())
                 elif op == "oldgen":
-                    add(w.oldgen())
+                    add(w.oldgen(rng.random() < 0.5))
                 else:
                     for p in range(1, rng.randint(1, maxprocs) + 1):
                         add(w.begin(p))
@@ -356,8 +356,8 @@ def replay_behaviour(args):
             elif act == "DeleteMod":
                 if w.delmod() is None:
                     mm = "delmod: no module file on disk"
-            elif act == "OldGen":
-                if w.oldgen() is None:
+            elif act in ("OldGen", "OtherGen"):
+                if w.oldgen(bool(last.get("newer"))) is None:
                     mm = "oldgen: no current-generation module file on disk"
             elif act == "Begin":
                 w.begin(a[0])
@@ -436,7 +436,7 @@ def check(run):
             run.spec_violation(res)
         for a, (d, g) in res.coverage.items():
             acts[a] = acts.get(a, 0) + g
-    for a in ("Modify", "Tick", "DeleteMod", "OldGen", "Begin", "StatMod", "ReadSrcFrom", "Mkstemp", "Write", "Close", "MoveFrom", "CallWriter", "LoadFrom", "Done", "Crash"):
+    for a in ("Modify", "Tick", "DeleteMod", "OtherGen", "Begin", "StatMod", "ReadSrcFrom", "Mkstemp", "Write", "Close", "MoveFrom", "CallWriter", "LoadFrom", "Done", "Crash"):
         if not acts.get(a):
             raise MachineryError("vacuous model checking: action %s never taken (%s)" % (a, acts))
     run.extra["action_coverage"] = acts
